@@ -264,6 +264,10 @@ pub fn check_hetero(c: &Hetero) -> Outcome {
         2 => ("xs.map(x, true, [x])", E::Macro(Mac::Map, b(E::var("xs")), "x".into(), vec![E::Lit(V::Bool(true)), E::List(vec![x()])])),
         3 => ("xs.map(x, xs.map(x, x))", E::Macro(Mac::Map, b(E::var("xs")), "x".into(), vec![E::Macro(Mac::Map, b(E::var("xs")), "x".into(), vec![x()])])),
         4 => ("[xs.map(x, x), xs.filter(x, x == x)]", E::List(vec![E::Macro(Mac::Map, b(E::var("xs")), "x".into(), vec![x()]), E::Macro(Mac::Filter, b(E::var("xs")), "x".into(), vec![E::bin(Op::Eq, x(), x())])])),
+        // the body hands the *name* of the iteration variable to a host function that looks it up in the calling scope
+        8 => ("", E::Macro(Mac::Map, b(E::var("xs")), "x".into(), vec![E::call("peek", vec![E::Lit(V::s("x"))])])),
+        9 => ("", E::Macro(Mac::Filter, b(E::var("xs")), "x".into(), vec![E::bin(Op::Eq, E::call("peek", vec![E::Lit(V::s("x"))]), E::call("peek", vec![E::Lit(V::s("x"))]))])),
+        10 => ("", E::Macro(Mac::All, b(E::var("xs")), "x".into(), vec![E::bin(Op::Eq, E::List(vec![E::call("peek", vec![E::Lit(V::s("x"))])]), E::List(vec![x()]))])),
         // forms 5-7: an inner macro over a *literal* range (here: the value of `outer`, written out) inside the body
         k => {
             let lit_range = E::Lit(c.outer.clone().unwrap_or(V::List(vec![])));
@@ -276,7 +280,7 @@ pub fn check_hetero(c: &Hetero) -> Outcome {
         }
     };
     debug_assert!(src.is_empty() || e.render().replace(['(', ')'], "") == src.replace(['(', ')'], ""));
-    if c.form >= 5 {
+    if (5..=7).contains(&c.form) {
         // `outer` carries the literal range here, it is not a context variable
         vars.truncate(1);
     }
@@ -636,7 +640,7 @@ pub fn run(r: &mut Runner) {
         let mut cases = vec![];
         for l in &lists {
             for outer in [None, Some(V::Int(1)), Some(V::f(1.0)), Some(V::Null)] {
-                for form in 0..5u8 {
+                for form in [0u8, 1, 2, 3, 4, 8, 9, 10] {
                     cases.push(Hetero { list: l.clone(), outer: outer.clone(), form });
                 }
             }
